@@ -19,13 +19,16 @@ def main():
         kfilter = sys.argv[sys.argv.index("-k") + 1]
         args = [a for a in args if a != kfilter]
     muts = json.load(open(os.path.join(ROOT, "selftest", "mutants.json")))
+    import glob
+    for f in sorted(glob.glob(os.path.join(ROOT, "selftest", "mutants.d", "*.json"))):
+        muts += json.load(open(f))
     wt = tempfile.mkdtemp(prefix="vselftest-")
     os.rmdir(wt)
     r = sh(f"git -C /repo worktree add --detach {wt} HEAD")
     if r.returncode != 0:
         print(r.stderr); sys.exit(2)
     # contract files: use /repo's working-tree versions (they may be newer than HEAD)
-    sh(f"cd /repo && find . -name verif_contracts.go | while read f; do mkdir -p {wt}/$(dirname $f); cp $f {wt}/$f; done")
+    sh(f"cd /repo && find . -name 'verif_contracts*.go' | while read f; do mkdir -p {wt}/$(dirname $f); cp $f {wt}/$f; done")
     bad = 0
     try:
         for m in muts:
